@@ -1,3 +1,4 @@
+import ReplicatProofs.Lemmas.PathWalk
 import ReplicatProofs.Lemmas.RoundTrip
 import ReplicatProofs.Lemmas.RestoreOps
 /-!
@@ -225,5 +226,162 @@ theorem skipped_part_keeps_old_bytes :
 /-- non-vacuity: a zero part written into the middle of a longer all-ones file through the generated operation list -/
 example : runW (fun d => d.all (· == 0)) 1 [0, 0] Gen.writePartOps ⟨[255, 255, 255, 255, 255], 0, 0⟩ = [255, 0, 0, 255, 255] := by
   decide +kernel
+
+/-! ## Which files a snapshot records: `_flatten_resolve_paths` → `flatten_paths` → `iterative_scandir` → sort -/
+section PathWalkProps
+open Replicat.PathWalk
+
+/-- **The explicit-stack directory walk is sound and complete** (LIFO and FIFO alike): when `iterative_scandir` finishes
+without an error, the entries it yields are exactly the `FileUnder` of the frames it was started with — every chain of
+entries passing the directory test that ends in an entry passing the file test, nothing else, nothing missed. -/
+theorem pathwalk_walk_spec (root : Node) (follow lifo : Bool) (n : Nat) (stack : List Frame) (ys : List Found)
+    (h : walk root follow lifo n stack = .ok ys) :
+    ∀ f, f ∈ ys ↔ ∃ fr ∈ stack, FileUnder root follow fr f :=
+  walk_spec root follow lifo n stack ys h
+
+/-- **No path is recorded twice**: with `dict.fromkeys` (dedup on) the recorded path strings are pairwise different, for every
+file system, every argument list (repeated, overlapping, nested, reached through links) and every configuration. -/
+theorem pathwalk_nodup (cfg : Cfg) (root : Node) (args : List Path) (l : List Rec)
+    (h : flattenResolve cfg root args = .ok l) (hd : cfg.dedup = true) : (l.map Prod.fst).Nodup :=
+  flattenResolve_nodup h hd
+
+/-- `pathwalk_nodup` for the configuration read from the source (`Gen.pwDedup = true`). -/
+theorem pathwalk_nodup_gen (a w : Nat) (root : Node) (args : List Path) (l : List Rec)
+    (h : flattenResolve (genCfg a w) root args = .ok l) : (l.map Prod.fst).Nodup :=
+  flattenResolve_nodup h (show Gen.pwDedup = true by decide)
+
+/-- **What `flatten_paths` yields**: exactly what some argument yields after `resolve(strict=True)` — a directory is walked,
+a file is itself, anything else contributes nothing. -/
+theorem pathwalk_flatten_mem (cfg : Cfg) (root : Node) (args : List Path) (l : List Found)
+    (h : PathWalk.flattenArgs cfg root args = .ok l) :
+    ∀ f, f ∈ l ↔ ∃ a ∈ args, ∃ p n l', resolveArg root cfg.argFuel a = .ok (p, n) ∧
+      flattenOne cfg root p n = .ok l' ∧ f ∈ l' :=
+  flattenArgs_mem cfg root args l h
+
+/-- **The recorded set**, dedup on or off: every record comes from a file some argument yields; every such file's path string
+is recorded; and when the path string determines the size (`KeyFun`: true on a real file system — the model allows two
+entries of one name and `/` inside a name) or dedup is off, the records are EXACTLY the images of those files. -/
+theorem pathwalk_record_set (cfg : Cfg) (root : Node) (args : List Path) (l : List Rec)
+    (h : flattenResolve cfg root args = .ok l) :
+    (∀ r, r ∈ l → ∃ f, toRec f = r ∧ ∃ a ∈ args, ArgYields cfg root a f) ∧
+    (∀ f, (∃ a ∈ args, ArgYields cfg root a f) → pathStr f.1 ∈ l.map Prod.fst) ∧
+    ((cfg.dedup = true → KeyFun cfg root args) →
+      ∀ r, r ∈ l ↔ ∃ f, toRec f = r ∧ ∃ a ∈ args, ArgYields cfg root a f) := by
+  obtain ⟨L, hL, h1, h2⟩ := flattenResolve_sound h
+  have hm := flattenArgs_mem cfg root args L hL
+  refine ⟨?_, ?_, ?_⟩
+  · intro r hr
+    obtain ⟨f, hf, e⟩ := List.mem_map.1 (h1 r hr)
+    exact ⟨f, e, (hm f).1 hf⟩
+  · intro f hf
+    exact h2 (toRec f) (List.mem_map.2 ⟨f, (hm f).2 hf, rfl⟩)
+  · intro hk r
+    obtain ⟨L', hL', hmem⟩ := flattenResolve_mem h hk
+    rw [hL] at hL'; cases hL'
+    rw [hmem, List.mem_map]
+    exact ⟨fun ⟨f, hf, e⟩ => ⟨f, e, (hm f).1 hf⟩, fun ⟨f, e, hf⟩ => ⟨f, (hm f).2 hf, e⟩⟩
+
+/-- **Repeating or permuting arguments does not change what is recorded**: two argument lists with the same members give
+(both succeed, and) the same set of records.  (An error in any argument is an error of the whole, so success transfers.)
+With dedup on the statement needs `KeyFun` — see `pathwalk_record_set`. -/
+theorem pathwalk_perm_args (cfg : Cfg) (root : Node) (args args' : List Path) (l : List Rec)
+    (hset : ∀ a, a ∈ args ↔ a ∈ args') (hk : cfg.dedup = true → KeyFun cfg root args)
+    (h : flattenResolve cfg root args = .ok l) :
+    ∃ l', flattenResolve cfg root args' = .ok l' ∧ ∀ r, r ∈ l ↔ r ∈ l' :=
+  flattenResolve_congr hset hk h
+
+/-- **The sorted list is canonical**: two duplicate-free record lists with the same members sort (by `(size, str)`) to the same
+list — the key is a total order on records, so the order of the stream is a function of the SET of records. -/
+theorem pathwalk_sorted_canonical (l₁ l₂ : List Rec) (h1 : (l₁.map Prod.fst).Nodup) (h2 : (l₂.map Prod.fst).Nodup)
+    (h : ∀ r, r ∈ l₁ ↔ r ∈ l₂) : sortFiles l₁ = sortFiles l₂ :=
+  sortFiles_canonical (nodup_of_map_fst h1) (nodup_of_map_fst h2) h
+
+/-- **The stream order depends on the set of arguments only** (dedup on): same members → the very same ordered list. -/
+theorem pathwalk_order_function_of_set (cfg : Cfg) (root : Node) (args args' : List Path) (s : List Rec)
+    (hd : cfg.dedup = true) (hset : ∀ a, a ∈ args ↔ a ∈ args') (hk : KeyFun cfg root args)
+    (h : snapshotOrder cfg root args = .ok s) : snapshotOrder cfg root args' = .ok s := by
+  cases hl : flattenResolve cfg root args with
+  | error e => simp [snapshotOrder, hl] at h
+  | ok l =>
+    simp only [snapshotOrder, hl] at h
+    cases h
+    obtain ⟨l', hl', hmem⟩ := flattenResolve_congr hset (fun _ => hk) hl
+    simp only [snapshotOrder, hl']
+    rw [sortFiles_canonical (nodup_of_map_fst (flattenResolve_nodup hl hd))
+      (nodup_of_map_fst (flattenResolve_nodup hl' hd)) hmem]
+
+/-- **More fuel never changes a finished walk.** -/
+theorem pathwalk_fuel_mono (root : Node) (follow lifo : Bool) (n k : Nat) (stack : List Frame) (ys : List Found)
+    (h : walk root follow lifo n stack = .ok ys) : walk root follow lifo (n + k) stack = .ok ys :=
+  walk_fuel_mono root follow lifo k n stack ys h
+
+/-- **A directory symlink back to an ancestor aborts the snapshot with ELOOP** (`d/loop → /d`): the walk follows it again and
+again until one lookup needs more than 40 links — the real code raises `OSError(ELOOP)` there. -/
+theorem pathwalk_cycle_eloop :
+    flattenResolve ⟨true, true, true, 100, 1000⟩
+      (.dir (.cons "d" (.dir (.cons "f" (.file 1) (.cons "loop" (.link true ["d"]) .nil))) .nil)) [["d"]]
+      = .error .eloop := by decide +kernel
+
+/-- **A symlink to itself inside a walked directory aborts with ELOOP** (not skipped like a dangling link). -/
+theorem pathwalk_self_link_aborts :
+    flattenResolve ⟨true, true, true, 100, 1000⟩
+      (.dir (.cons "d" (.dir (.cons "f" (.file 1) (.cons "self" (.link false ["self"]) .nil))) .nil)) [["d"]]
+      = .error .eloop := by decide +kernel
+
+/-- **A symlink whose target goes through a regular file aborts with ENOTDIR** (`NotADirectoryError` in the real code). -/
+theorem pathwalk_link_through_file_aborts :
+    flattenResolve ⟨true, true, true, 100, 1000⟩
+      (.dir (.cons "d" (.dir (.cons "f" (.file 1) (.cons "l" (.link false ["f", "x"]) .nil))) .nil)) [["d"]]
+      = .error .enotdir := by decide +kernel
+
+/-- **A symlink loop in an ARGUMENT is `RuntimeError("Symlink loop …")`** of `Path.resolve`, not ELOOP. -/
+theorem pathwalk_arg_loop_runtime_error :
+    flattenResolve ⟨true, true, true, 100, 1000⟩
+      (.dir (.cons "a" (.link true ["b"]) (.cons "b" (.link true ["a"]) .nil))) [["a"]]
+      = .error .loopRT := by decide +kernel
+
+/-- dangling links and `other` nodes are silently skipped; an acyclic directory symlink is followed and its files are reported
+under the path they were reached by -/
+example :
+    flattenResolve ⟨true, true, true, 100, 1000⟩
+      (.dir (.cons "d" (.dir (.cons "dang" (.link false ["nope"]) (.cons "sock" .other (.cons "ln" (.link true ["e"]) .nil))))
+        (.cons "e" (.dir (.cons "g" (.file 7) .nil)) .nil))) [["d"]]
+      = .ok [("/d/ln/g", 7)] := by decide +kernel
+
+/-- **What was read from the source** (`tools/sections/01_pathwalk.py`): the walk follows links in its tests, yields the entry
+(its reached path), arguments are resolved strictly, duplicates are dropped, the sort key is `(size, str)`. -/
+theorem pathwalk_source_facts :
+    Gen.pwWalkFollow = true ∧ Gen.pwYieldsEntry = true ∧ Gen.pwArgShape = true ∧ Gen.pwStrict = true ∧
+      Gen.pwDedup = true ∧ Gen.pwSortKey = ["size", "str"] := by decide
+
+/-- **On a symlink-free tree the walk cannot fail and needs one unit of fuel per directory**: all frames link-free and
+fuel ≥ Σ over the stack of (1 + number of directories below) → a result, never an error (no ELOOP/ENOTDIR, no fuel). -/
+theorem pathwalk_terminates_nolinks_stack (root : Node) (follow lifo : Bool) (n : Nat) (stack : List Frame)
+    (hnl : ∀ fr ∈ stack, fr.2.noLinks = true) (hm : stackMeasure stack ≤ n) :
+    ∃ ys, walk root follow lifo n stack = .ok ys :=
+  walk_terminates_nolinks root follow lifo n stack hnl hm
+
+/-- `pathwalk_terminates_nolinks_stack` for one starting directory: fuel = its number of directories (itself included). -/
+theorem pathwalk_terminates_nolinks (root : Node) (follow lifo : Bool) (n : Nat) (p : Path) (es : Entries)
+    (hnl : es.noLinks = true) (hm : es.dirCount + 1 ≤ n) : ∃ ys, walk root follow lifo n [(p, es)] = .ok ys :=
+  walk_terminates_nolinks root follow lifo n [(p, es)]
+    (fun fr hfr => by rw [List.mem_singleton.1 hfr]; exact hnl)
+    (by rw [stackMeasure_cons]; simp [stackMeasure]; omega)
+
+/-- **A symlink ARGUMENT records its target's path** (`resolve` happens before anything else): an argument resolving to a
+regular file at physical path `p` is recorded as `str(p)`. -/
+theorem pathwalk_symlink_arg_records_target (cfg : Cfg) (root : Node) (a p : Path) (s : Nat)
+    (h : resolveArg root cfg.argFuel a = .ok (p, .file s)) : flattenResolve cfg root [a] = .ok [(pathStr p, s)] :=
+  flattenResolve_file_arg h
+
+/-- **A symlink met INSIDE a walked directory records the link's own path** (the path it was reached by, not the target's):
+a link entry whose `stat` is a regular file of size `s` is yielded as `start/name` with size `s`. -/
+theorem pathwalk_symlink_inside_records_link_path (root : Node) (lifo : Bool) (n : Nat) (start : Path) (es : Entries)
+    (name : String) (ab : Bool) (t : List String) (s : Nat) (ys : List Found)
+    (hm : (name, Node.link ab t) ∈ es.toList) (hst : statFollow root (start ++ [name]) = .ok (.file s))
+    (h : walk root true lifo n [(start, es)] = .ok ys) : (start ++ [name], s) ∈ ys :=
+  (walk_spec root true lifo n _ ys h _).2 ⟨_, List.mem_singleton.2 rfl, .here hm (classify_link_file hst)⟩
+
+end PathWalkProps
 
 end Replicat.C01
